@@ -304,12 +304,12 @@ def extra_stage(tier, rng, work):
         if not cases:
             return dict(coverage=dict(e2e_cases=0))
     else:
-        cases = e2e_corpus() + [e2e_case(rng, "e%d" % i) for i in range(120 if tier == "thorough" else 24)]
+        cases = e2e_corpus() + [e2e_case(rng, "e%d" % i) for i in range(120 if tier == "thorough" else 12)]
     if tier == "thorough" and os.path.exists(vlib.harness_path("c19e", "checked")):
         couts, _ = vlib.run_harness("c19e", e2e_corpus(), os.path.join(work, "e2e_checked"), "checked", timeout=600, shards=3)
     else:
         couts = {}
-    outs, problems = vlib.run_harness("c19e", cases, os.path.join(work, "e2e"), "release", timeout=1200, shards=4)
+    outs, problems = vlib.run_harness("c19e", cases, os.path.join(work, "e2e"), "release", timeout=1200, shards=8)
     # real sockets and real time: a scenario that fails is run a second time, alone, and only
     # counts if it fails again (the deterministic twin of the timer scenarios is op `fire` in-process)
     KNOWN_OPEN = ("e2e-reactivated-listener-dead",)    # deterministic, listed in known_findings.json: not worth a retry
